@@ -8,12 +8,14 @@
 EXTENDS RelayGate
 CONSTANTS InjAssignees, InjEst, InjProc, InjSenders, DynDepth, RowMode
 
-\* "canon": attributes of validators outside the snapshot are not varied beyond the chain account (the snapshot
-\* holds no entry for them, so the model state is the same); "full": every row with the primary address; "all": Row
+\* attributes of validators outside the snapshot are not varied beyond the chain account (the snapshot holds no entry
+\* for them, so the model state is the same); "full": every fee / metrics combination of the members; "all": every row
 \* (a trait without the account that carries it is not a row of its own: CurOf drops it)
 Wf(r) == (r.mevH => r.home) /\ (r.mevT => r.acct # 0)
-McRows == CASE RowMode = "canon" -> {r \in Row : Wf(r) /\ r.acct <= 1 /\ (~r.home => (r.fee = BaseFee /\ r.perf /\ ~r.mevT))}
-            [] RowMode = "full"  -> {r \in Row : Wf(r) /\ r.acct <= 1}
+\* "canon" also skips the fee level of a validator whose metrics record is missing (it is outside the scored set either way)
+McRows == CASE RowMode = "canon" -> {r \in Row : Wf(r) /\ r.acct <= 1 /\ (~r.home => (r.fee = BaseFee /\ r.perf /\ ~r.mevT))
+                                                 /\ (~r.perf => r.fee \in {0, BaseFee})}
+            [] RowMode = "full"  -> {r \in Row : Wf(r) /\ r.acct <= 1 /\ (~r.home => (r.fee = BaseFee /\ r.perf /\ ~r.mevT))}
             [] OTHER             -> {r \in Row : Wf(r)}
 NextRows == \E v \in Vals, r \in McRows : SetRow(v, r)
 
